@@ -1233,13 +1233,18 @@ def gen(tier, rng):
     yield ('pinned', 1, [[0, None, None, None, 0, 2, 0], [['a', 'misc', [['title', 'T']], []]], [['a', 'nokey']]])
     yield ('pinned', 1, [cfg0, [['a', 'article', [['title', 'T']], [['author', [P(last=['A'])]]]]], None])   # missing journal
     yield ('pinned', 1, [cfg0, [['a', 'misc', [['crossref', 'b']], []], ['b', 'misc', [['crossref', 'a']], []]], None])   # F4 cycle
+    # an entry that is not in the database, whose parents form a cycle (the fuel of find_field)
+    ent3 = ['Other', 'misc', [['crossref', 'par']], []]
+    for t in (FLD('zz'), FLD('nope'), OFLD('nope'), [12, [OFLD('nope'), L('x')]]):
+        yield ('pinned', 2, [t, ent3, [DB2], 0, 0])
+        yield ('pinned', 2, [t, ent3, [[['par', 'misc', [['crossref', 'par']], []]]], 0, 0])
     yield ('pinned', 1, [cfg0, [['k', 'inproceedings', [['title', 'T'], ['booktitle', ''], ['year', '']], [['author', [P(last=['A'])]]]]], None])   # F27
     yield ('pinned', 1, [cfg0, [['k', 'incollection', [['title', 'T'], ['booktitle', '{}'], ['year', ' ']], [['author', [P(last=['A'])]]]]], None])
     # ---- exhaustive small scope: string-level helpers
     for n in range(0, 6 if quick else 7):
         for s in itertools.product('aB -.', repeat=n):
             yield ('exhaustive_abbreviate', 6, [''.join(s)])
-    for n in range(0, 7 if quick else 9):
+    for n in range(0, 7 if quick else 8):
         for s in itertools.product('a{}-', repeat=n):
             yield ('exhaustive_from_latex', 7, [''.join(s)])
     for s in ['a~b', '--', '---', "``q''", 'a  b', ' a', 'a%b', '\\', 'a\\', "\\'e", '$x$', '{\\"o}x', 'a\tb', 'a\nb']:
@@ -1254,7 +1259,7 @@ def gen(tier, rng):
             for t in wrap_kinds(list(cs)):
                 yield ('exhaustive_combinators', 2, [t, ENT2, [DB2], 0, 0])
     if not quick:
-        for cs in itertools.product(pool[:9], repeat=3):
+        for cs in itertools.product(pool[:8], repeat=3):
             for t in wrap_kinds(list(cs)):
                 yield ('exhaustive_combinators', 2, [t, ENT2, [DB2], 0, 0])
     # nested random trees
@@ -1263,7 +1268,7 @@ def gen(tier, rng):
             return rng.choice(pool)
         cs = [rtree(d - 1) for _ in range(rng.choice([0, 1, 2, 2, 3, 4]))]
         return rng.choice(list(wrap_kinds(cs)))
-    for i in range(2500 if quick else 20000):
+    for i in range(2500 if quick else 12000):
         yield ('random_trees', 2, [rtree(3), ENT2, [DB2] if rng.random() < 0.8 else None, rng.randrange(2), rng.randrange(2)])
     # ---- names
     parts = [[], ['A'], ['Ab'], ['Abc'], ['Jean-Paul'], ['J.', 'R'], ['{Xy}', 'de', 'Zed'], ['a b'], ['x', 'y', 'z', 'w']]
@@ -1322,7 +1327,7 @@ def gen(tier, rng):
                     e = rand_entry(rng, rng.choice(KEYS), typ, pat, proles)
                     yield ('type_patterns', 1, [rand_cfg(rng, strict=1), [e], None])
     # ---- random databases
-    for i in range(1200 if quick else 12000):
+    for i in range(1200 if quick else 8000):
         db = rand_db(rng, rng.choice([1, 2, 3, 3, 4, 5, 6]))
         if rng.random() < 0.6:
             # make required fields mostly present so that whole bibliographies are produced
@@ -1375,7 +1380,7 @@ RULE = ('pinned defect inputs; exhaustive: textutils.abbreviate on all strings o
         'and citation lists (wildcard, unknown keys, case variants); malformed: unknown types, unbalanced braces, undecodable LaTeX, empty person lists, '
         'dangling cross-references, empty values.  distinct = distinct (function, argument); non-trivial = a non-empty result or a reported missing field.')
 EXHAUSTIVE = {'quick': 'abbreviate: strings <= 5 over 5 chars; from_latex: strings <= 6 over 4 chars; 15 combinator shapes x child tuples of length <= 2 over 19/12 leaves',
-              'thorough': 'abbreviate: strings <= 6; from_latex: strings <= 8; 15 combinator shapes x child tuples of length <= 3; all field-presence patterns of every entry type with <= 8 template fields'}
+              'thorough': 'abbreviate: strings <= 6; from_latex: strings <= 7; 15 combinator shapes x child tuples of length <= 3; all field-presence patterns of every entry type with <= 8 template fields'}
 TRUSTED_BASE = ['modelled (not verified) code: pybtex/style/template.py, style/formatting/__init__.py, style/names/*.py, style/labels/alpha.py number.py, '
                 'style/sorting/*.py, textutils.abbreviate/tie_or_space, unsrt.dashify, markup.LaTeXParser, Entry._find_field, Person.__str__; citation resolution is the C05 model',
                 'rich text is modelled by its flat (atom, markup stack) rendering (C08 relates richtext.py to it); the template trees of unsrt.py are data dumped from the live Style object on every run',
